@@ -290,7 +290,7 @@ def rand_case(rnd, big=False):
     return mk(threads, invs, sched)
 
 
-def gen_random(tier, seed, n_quick=1400, n_thorough=30000):
+def gen_random(tier, seed, n_quick=2400, n_thorough=30000):
     rnd = random.Random(0xCAC4E + 7919 * seed)
     n = n_quick if tier == 'quick' else n_thorough
     return [rand_case(rnd) for _ in range(n)]
@@ -388,9 +388,11 @@ def distribution(cases, obs):
 RULE = ('case = (2..4 threads each owning one virtual-time event loop, 1..3 callers per loop on 1..2 keys with arrival '
         'ticks and optional cancellation ticks, per-thread epilogue {join all callers | main returns at tick T with calls '
         'pending} followed by any of {asyncio.run-style shutdown (cancel leftovers in creation or reverse order), close} at '
-        'given ticks, script of invocation durations (-1 no suspension, 0, d ticks) and outcomes (return/raise), schedule = '
+        'given ticks, script of invocation durations (-2 the wrapped callable raises synchronously, -1 no suspension, 0, '
+        'd ticks incl. d > 61440 = longer than the 60 s safety window) and outcomes (return/raise), schedule = '
         'thread chosen at every gate).  The REAL threadsafe_async_cache runs under the gated-thread controller (gates: lock '
-        'acquire/release, cache lookup, second gate after a miss, cache store, loop idle, epilogue actions); the recorded '
+        'acquire/release, cache lookup, second gate after a miss, cache store, run_coroutine_threadsafe, loop idle, '
+        'epilogue actions); the recorded '
         'event trace must be a complete run of the Coq model Cache.step (every event enabled in the model state, including '
         'which thread ran, hit/miss consequences, who may be woken, proxy results, clock) and is judged by the trace '
         'monitor.  non-trivial is decided in Coq per property (see Case_Cxx.nontrivial).')
